@@ -14,7 +14,11 @@ import RModel.Gen.LockUsers
   at most one process owns the lock at any time, its file is never unlinked by anybody else, a process
   whose acquire failed never enters, and when nobody owns the lock the file is gone.
   What does not hold (kernel-evaluated witnesses with explicit schedules): everything else the property
-  asks for — see `C12_full` (a `def`, refuted by `C12_full_false`).
+  asks for — see `C12_full` (a `def`, refuted by `C12_full_false`).  The witnesses are stated for explicit
+  variants of the acquire/drop code (flags of `Lock.State`); which variant /repo has is regenerated into
+  `Gen.LockUsers` and pinned by the theorems of the last section (`mutex_absent_source`, `all_mutators_lock`,
+  `drop_is_content_checked`, …).  The defects that were repaired in /repo are kept as theorems about the old
+  variants here (model) and in `Props/C12Findings.lean` (old lock-user table).
 -/
 namespace C12
 open Lock
@@ -498,27 +502,80 @@ theorem create_is_exclusive :
 /-- the commands that change the tree or renamify's own state -/
 def mutating : List Command := [.plan, .rename, .apply, .undo, .redo, .replace]
 
-/-- every mutating command takes the lock.  FALSE today. -/
+/-- every mutating command takes the lock (false on the pinned tree: `C12_all_mutators_lock_false_old`) -/
 def C12_all_mutators_lock : Prop := ∀ c ∈ mutating, locks c = true
 
-/-- the commands that do lock: `plan` (unless `dry_run`), `rename`, and the hidden `test-lock`; the table
-    covers every CLI command -/
-theorem lockers_partial :
-    locks .plan = true ∧ locks .rename = true ∧ locks .testLock = true ∧ table.map (·.cmd) = Command.all := by
-  decide
+/-- **Every mutating command takes the lock** (since repo commit 451dd24); removing the acquire from any
+    of them flips this theorem, and the CLI oracle of `checks/c12.py` reports the command entering under a
+    held lock. -/
+theorem all_mutators_lock : C12_all_mutators_lock := by unfold C12_all_mutators_lock; decide
+
+/-- exactly these commands reach `LockFile::acquire`; `search`, `rename`, `replace` and `plan` skip it exactly
+    when `dry_run` (a dry run writes nothing; `search` = `plan` with `dry_run = true`); the table covers every
+    CLI command -/
+theorem lockers_exactly :
+    (table.filter (·.locks)).map (·.cmd) = [.search, .rename, .replace, .plan, .apply, .undo, .redo, .testLock] ∧
+    (table.filter (·.unlessDryRun)).map (·.cmd) = [.search, .rename, .replace, .plan] ∧
+    table.map (·.cmd) = Command.all := by decide
 
 /-- wherever the lock is taken it is bound to a variable that lives until the operation returns, and
-    nothing mutating precedes it; `test-lock` takes it unconditionally, `plan`/`search` and `rename` skip it
-    exactly when `dry_run` (a dry run writes nothing) -/
+    nothing mutating precedes it; `apply`, `undo`, `redo` and `test-lock` take it unconditionally -/
 theorem lockers_hold_until_return :
     (∀ r ∈ table, r.locks = true → r.held = true ∧ r.first = true) ∧
-    (∀ r ∈ table, r.cmd = .testLock → r.unlessDryRun = false) := by decide
+    (∀ r ∈ table, r.cmd = .testLock ∨ r.cmd = .apply ∨ r.cmd = .undo ∨ r.cmd = .redo → r.unlessDryRun = false) := by
+  decide
 
 theorem plan_locks : locks .plan = true := by decide
 theorem rename_locks : locks .rename = true := by decide
+theorem apply_locks : locks .apply = true := by decide
+theorem undo_locks : locks .undo = true := by decide
+theorem redo_locks : locks .redo = true := by decide
+theorem replace_locks : locks .replace = true := by decide
 theorem test_lock_locks : locks .testLock = true := by decide
 
-/-- the part of `C12_all_mutators_lock` that holds: restricted to the commands that lock -/
-theorem C12_mutators_lock_partial : ∀ c ∈ mutating, c ∈ [Command.plan, .rename] → locks c = true := by decide
+/-! ### the shape of `lock.rs` that the mutex theorems are about -/
+
+/-- the side condition of the invariant (`Lock.Inv.publish`) holds for the source: unparsable lock files are
+    removed only because the lock file is published complete.  (Also true for the pinned tree, which removes
+    none; false for the 9509d2d variant, `C12_witness_empty_window_race`.) -/
+theorem source_publish_condition : abandonPolicy ≠ .none → publishByLink = true := by decide
+
+/-- **Mutual exclusion for the acquire that the source has** (flags regenerated from /repo on every run):
+    from "no lock file", any number of processes, every schedule, clock within 300 s, terminated processes
+    lingering … -/
+theorem mutex_absent_source (n now : Nat) (debug : Bool) (es : List Ev)
+    (hclk : (run (variant abandonPolicy publishByLink (initAbsent n now debug false)) es).now ≤ now + staleTimeout) :
+    Safe (run (variant abandonPolicy publishByLink (initAbsent n now debug false)) es) :=
+  safe_of_inv (Inv.run es (inv_initAbsent n now debug false abandonPolicy publishByLink source_publish_condition
+    (Or.inl rfl)) hclk)
+
+/-- … for two processes also when they exit at once … -/
+theorem mutex_absent_source_two_exits (n now : Nat) (hn : n ≤ 2) (debug : Bool) (es : List Ev)
+    (hclk : (run (variant abandonPolicy publishByLink (initAbsent n now debug true)) es).now ≤ now + staleTimeout) :
+    Safe (run (variant abandonPolicy publishByLink (initAbsent n now debug true)) es) :=
+  safe_of_inv (Inv.run es (inv_initAbsent n now debug true abandonPolicy publishByLink source_publish_condition
+    (Or.inr hn)) hclk)
+
+/-- … and against a live holder. -/
+theorem mutex_live_holder_source (n now ts : Nat) (hn : 0 < n) (hts : ts ≤ now) (debug : Bool) (es : List Ev)
+    (hclk : (run (variant abandonPolicy publishByLink (initHeld n now debug false ts)) es).now ≤ ts + staleTimeout) :
+    Safe (run (variant abandonPolicy publishByLink (initHeld n now debug false ts)) es) :=
+  safe_of_inv (Inv.run es (inv_initHeld n now ts debug false abandonPolicy publishByLink source_publish_condition
+    (Or.inl rfl) hn hts) hclk)
+
+/-- an unparsable (empty or damaged) lock file is abandoned, and the lock file is published by `hard_link`
+    (repo commit 35d666f): a leftover file no longer blocks the next command (`malformed_blocks` is repaired
+    for text; see the `withPublishFix` examples above) -/
+theorem unparsable_abandoned_under_atomic_publish : abandonPolicy = .unparsable ∧ publishByLink = true := by decide
+
+/-- `Drop` and `release_held_locks` remove the file only if its content is still ours (repo commit d33e63d):
+    the model's `dropChecks`, under which an evicted holder leaves the new holder's lock alone -/
+theorem drop_is_content_checked : dropChecksContent = true := by decide
+
+/-- the age of a lock saturates at 0 (repo commit 469c078): no panic, no wrap for a future timestamp -/
+theorem age_saturates : ageSaturates = true := by decide
+
+/-- no command calls `release()`: what runs at the end of a command is `Drop` (modelled at `dropCheck`/`dropUnlink`) -/
+theorem release_never_called : releaseCallSites = 0 := by decide
 
 end C12
